@@ -87,9 +87,14 @@ def main():
     thorough = args.tier == "thorough"
     lines, expect = [], []
 
-    def rand_sym(dim, amp):
-        A = np.array([[rng.gauss(0, 1) for _ in range(dim)] for _ in range(dim)])
-        return amp * (A + A.T) / 2
+    def rand_sym(dim, amp, admissible=False):
+        # admissible: the deformation F = sqrt(I + 2E) must exist with det F > 0, away from the singular limit
+        # (the property quantifies over deformations with positive Jacobian); states outside are redrawn, not tested
+        while True:
+            A = np.array([[rng.gauss(0, 1) for _ in range(dim)] for _ in range(dim)])
+            S = amp * (A + A.T) / 2
+            if not admissible or np.linalg.eigvalsh(2 * S + np.eye(dim)).min() > 0.35:
+                return S
 
     # ---------------- law level ----------------
     for dim in (3, 2):
@@ -97,7 +102,7 @@ def main():
         for name, law, params in make_laws(dim, rng):
             res.count(f"law:{name}")
             for rep in range(3 if not thorough else 8):
-                E0 = rand_sym(dim, 0.15)
+                E0 = rand_sym(dim, 0.15, admissible=True)
                 ident = dict(law=name, dim=dim, E=E0.tolist())
                 try:
                     F0 = F_of_E(E0)
